@@ -48,6 +48,9 @@ func replPool() []string {
 		model.KwPrint + " " + model.BiInput + ";", // a built-in printed (no call)
 		"# @ # @ # @ # @ # @ # @ # @",             // a line with many lexical errors
 		"1 +; 2 +; ) ) ) ; ; ;",                   // a line with a syntax error followed by more garbage
+		// a function whose body ends in a loop-less break / continue, called, followed by bare expressions
+		model.KwFun + " sb() { " + model.KwBreak + "; } sb(); 7;",
+		model.KwFun + " sc() { " + model.KwPrint + " 1; " + model.KwContinue + "; } 5; sc(); 6;",
 		// loops without a condition: one that fails inside, one that fails before its guarded break, one that ends
 		model.KwFor + " (;;) { " + model.KwPrint + " 1 / 0; }",
 		model.KwVar + " n = 0; " + model.KwFor + " (;; n = n + 1) { " + model.KwIf + " (n > 2) { " + model.KwBreak + "; } zz; }",
